@@ -23,7 +23,13 @@ PRotate(N, p, a) ==
   [j \in Idx(N) |-> LET i == (j - p) % (2 * N) IN IF i < N THEN a[i] ELSE -a[i - N]]
 
 \* inverse of an odd p modulo 2N
-InvMod(p, M) == CHOOSE q \in 1 .. M - 1 : MulMod(p % M, q, M) = 1
+\* (M = 2N is a power of two; for the large dimensions the inverse comes from Newton's iteration q <- q (2 - p q), which doubles
+\* the number of correct low bits from the 3 of q = p; it is checked to be the inverse)
+NewtonInv(p, M) ==
+  LET step(q) == MulMod(q, (2 + M - MulMod(p, q, M)) % M, M)
+      q5 == step(step(step(step(step(p)))))
+  IN IF MulMod(p, q5, M) = 1 THEN q5 ELSE Assert(FALSE, "NewtonInv")
+InvMod(p, M) == IF M <= 131072 THEN CHOOSE q \in 1 .. M - 1 : MulMod(p % M, q, M) = 1 ELSE NewtonInv(p % M, M)
 
 \* coefficient j of a(X^p), p odd : i*p = j or j+N (mod 2N)
 PAutomorphism(N, p, a) ==
